@@ -276,7 +276,25 @@ def reparseVal {χ} : Val χ → Val χ
   | .qty x => .qty (reparse x)
   | .envQty m => .envQty (m.map fun p => (p.1, reparse p.2))
   | .arr x => .arr (reparseArr x)
+  | .stoich s p => .stoich (nz s) (nz p)
   | v => v
+
+theorem sidesOrder_nz (l : List (String × Int)) : sidesOrder (nz l) = sidesOrder l := by
+  have key : ∀ (l : List (String × Int)) (acc : Int),
+      ((nz l).map (·.2)).foldl (· + ·) acc = (l.map (·.2)).foldl (· + ·) acc := by
+    intro l
+    induction l with
+    | nil => intro acc; rfl
+    | cons a t ih =>
+      intro acc
+      by_cases h : a.2 = 0
+      · have : nz (a :: t) = nz t := by simp [nz, h]
+        rw [this, ih]; simp [h]
+      · have : nz (a :: t) = a :: nz t := by simp [nz, h]
+        rw [this]; simp only [List.map_cons, List.foldl_cons]; exact ih _
+  exact key l 0
+
+theorem nz_nz (l : List (String × Int)) : nz (nz l) = nz l := by simp [nz, List.filter_filter]
 
 /-- well-formed value of a `process_unitvar_input(single ✓, dict ✓)` property of dimension `dim` -/
 def QtyEnvOK {χ} (dim : Dim) (v : Val χ) : Prop :=
@@ -435,7 +453,7 @@ theorem readKind_boolEnv_raw {χ} (c : Ctx χ) (d : KV) (wc : χ → Json) (kv :
     readKind c d .boolEnv (writeVal wc (.raw (.obj kv))) = .ok (.raw (.obj kv)) := rfl
 
 theorem readKind_stoich {χ} (c : Ctx χ) (d : KV) (wc : χ → Json) (s p : List (String × Int)) :
-    readKind c d .stoich (writeVal wc (.stoich s p)) = .ok (.stoich s p) := rfl
+    readKind c d .stoich (writeVal wc (.stoich s p)) = .ok (.stoich (nz s) (nz p)) := rfl
 
 theorem readKind_int {χ} (c : Ctx χ) (d : KV) (wc : χ → Json) (n : Int) :
     readKind c d .int (writeVal wc (.int n)) = .ok (.int n) := by
@@ -610,12 +628,20 @@ theorem labelOf_reparseObj {χ} (r : χ → χ) (o : Obj χ) : labelOf (reparseO
   | none => rfl
   | some v => cases v <;> rfl
 
-theorem sidesOf_reparseObj {χ} (r : χ → χ) (o : Obj χ) : sidesOf (reparseObj r o) = sidesOf o := by
+theorem sidesOf_reparseObj {χ} (r : χ → χ) (o : Obj χ) : ∀ l ∈ sidesOf (reparseObj r o), l ∈ sidesOf o := by
   unfold sidesOf reparseObj
   rw [lookup_map_snd]
   cases o.lookup "stoichiometry" with
-  | none => rfl
-  | some v => cases v <;> rfl
+  | none => intro l hl; exact hl
+  | some v =>
+    cases v with
+    | stoich s p =>
+      intro l hl
+      simp only [Option.map_some, reparseValWith, reparseVal, nz, List.mem_append, List.mem_map, List.mem_filter] at hl ⊢
+      rcases hl with ⟨q, ⟨hq, _⟩, rfl⟩ | ⟨q, ⟨hq, _⟩, rfl⟩
+      · exact .inl ⟨q, hq, rfl⟩
+      · exact .inr ⟨q, hq, rfl⟩
+    | _ => intro l hl; exact hl
 
 theorem childList_reparseObj {χ} (r : χ → χ) (o : Obj χ) (k : String) :
     childList (reparseObj r o) k = (childList o k).map r := by
